@@ -1,6 +1,6 @@
 SPECIFICATION Spec
 CONSTANTS RefFam = "big"
-          EstFam = "mid"
+          EstFam = "small"
           Offsets = {0, 7}
           Transpose = FALSE
 INVARIANT Lattice
